@@ -202,6 +202,34 @@ func init() {
 		"{\n    @compile block unused=false {\n        w%d := 5\n    } catch(e) {\n        @fail e.Error()\n    }\n    @assert 1 == 2\n}\n")
 }
 
+// c13Caps: the number of `@capture` blocks the body (or a function it calls) leaves through `return`,
+// i.e. without reaching the block's EndCapture: the frame that is popped must give the output-capture
+// stack back as it found it, or the test's own PASS/FAIL line is printed into an abandoned buffer.
+var c13Caps = map[string]int{}
+
+func init() {
+	add := func(tag string, kind byte, junk int, leak string, caps int, src string) {
+		c13Templates = append(c13Templates, c13Tmpl{tag, kind, 0, junk, leak, false, src})
+		if caps > 0 {
+			c13Caps[tag] = caps
+		}
+	}
+
+	const helper = "    func cr%d() int {\n        @capture _ = {\n            fmt.Println(\"hidden-%d\")\n            return 3\n        }\n        return 4\n    }\n"
+
+	// @capture used as documented (docs/internals/TESTING.md): nothing is left open
+	add("p-capture-plain", 'P', 0, "-", 0, "{\n    @capture s%d := {\n        fmt.Println(\"x\")\n    }\n    @assert s%d == \"x\\n\"\n}\n")
+	add("a-capture-assert-inside", 'A', 0, "-", 0, "{\n    @capture _ = {\n        fmt.Println(\"hidden-%d\")\n        @assert 1 == 2\n    }\n}\n")
+	add("r-capture-error-in-call-inside", 'R', 0, "-", 0, "{\n    @capture _ = {\n        fmt.Println(c13deep(2))\n    }\n}\n")
+	// `return` inside the block: in the body itself, in a loop, nested, in a function the body calls
+	add("p-capture-return", 'P', 1, "7", 1, "{\n    @capture _ = {\n        fmt.Println(\"hidden-%d\")\n        return\n    }\n    @fail \"not reached\"\n}\n")
+	add("p-capture-return-in-loop", 'P', 1, "7", 1, "{\n    @capture s%d := {\n        for i := 0; i < 3; i = i + 1 {\n            if i == 1 {\n                return\n            }\n        }\n    }\n    @fail s%d\n}\n")
+	add("p-capture-nested-return", 'P', 2, "7,7", 2, "{\n    @capture _ = {\n        @capture _ = {\n            fmt.Println(\"hidden-%d\")\n            return\n        }\n    }\n    @fail \"not reached\"\n}\n")
+	add("p-capture-return-in-func", 'P', 0, "-", 1, "{\n"+helper+"    @assert cr%d() == 3\n}\n")
+	add("a-capture-return-in-func", 'A', 0, "-", 1, "{\n"+helper+"    @assert cr%d() == 99\n}\n")
+	add("r-capture-return-in-func", 'R', 0, "-", 1, "{\n"+helper+"    z%d := cr%d() - 3\n    fmt.Println(5 / z%d)\n}\n")
+}
+
 // c13Settings reads the three process-global settings an @compile directive can override.
 func c13Settings() string {
 	return "unused=" + settings.Get(defs.UnusedVarsSetting) + " unknown=" + settings.Get(defs.UnknownVarSetting) +
@@ -479,7 +507,27 @@ func c13Class(f c13File, res c13Result, want []string) string {
 	got := strings.Join(res.lines, ",")
 	_, wantStop := f.want()
 
+	// the lines the run would print if exactly the tests that leave an @capture open lost their own line
+	capOpen, withoutCaps := false, []string{}
+
+	for _, blk := range f.blocks {
+		t := c13Templates[blk.tmpl]
+		if t.kind == 'F' && t.brace == 0 {
+			break
+		}
+
+		if c13Caps[t.tag] > 0 {
+			capOpen = true
+		} else if t.brace != 0 || t.kind != 'P' {
+			withoutCaps = append(withoutCaps, fmt.Sprintf("%d=F", blk.id))
+		} else {
+			withoutCaps = append(withoutCaps, fmt.Sprintf("%d=P", blk.id))
+		}
+	}
+
 	switch {
+	case capOpen && !res.hung && res.stopped == wantStop && got == strings.Join(withoutCaps, ","):
+		return "return-in-capture-loses-test-line"
 	case override && res.settings != res.settingsBefore:
 		return "compile-directive-override-outlives-test"
 	case bareCompileErr && len(res.lines) == 0 && len(want) > 0 && !res.hung:
@@ -745,6 +793,10 @@ func TestVerifC13(t *testing.T) {
 
 			if blk.isBare() {
 				stats.Inc("blocks_without_braces")
+			}
+
+			if c13Caps[c13Templates[blk.tmpl].tag] > 0 {
+				stats.Inc("blocks_leaving_capture_open")
 			}
 		}
 
